@@ -3,6 +3,8 @@ package main
 import (
 	"fmt"
 	"go/ast"
+	"os"
+	"time"
 	"regexp"
 	"sort"
 	"strings"
@@ -280,7 +282,7 @@ func (eng *Engine) inferRenaming(fn *ssa.Function, modes Modes, spec map[string]
 	// 1. anchors that are gone: a vanished identifier in the anchor, replaced by an unmentioned local, gives a line of the function
 	for _, cut := range ct.Cuts {
 		a := anchorText(cut.Anchor)
-		if lines[a] || strings.HasPrefix(cut.Anchor, "call:") || cut.Anchor == "go:" {
+		if lines[a] || strings.HasPrefix(cut.Anchor, "call:") || cut.Anchor == "go:" || cut.Anchor == "loopend:" {
 			continue
 		}
 		for id := range identsOf(a) {
@@ -337,7 +339,7 @@ func (eng *Engine) inferRenaming(fn *ssa.Function, modes Modes, spec map[string]
 			for o, n := range mapping {
 				a = substIdent(a, o, n)
 			}
-			if strings.HasPrefix(a, "call:") || a == "go:" || lines[anchorText(a)] {
+			if strings.HasPrefix(a, "call:") || a == "go:" || a == "loopend:" || lines[anchorText(a)] {
 				continue
 			}
 			if !cut.Claim {
@@ -396,6 +398,8 @@ func (eng *Engine) inferRenaming(fn *ssa.Function, modes Modes, spec map[string]
 		}
 		name := mm[1]
 		var ok *FnResult
+		var best *FnResult
+		bestFail := 0
 		for _, c := range cands {
 			if used[c] {
 				continue
@@ -427,7 +431,16 @@ func (eng *Engine) inferRenaming(fn *ssa.Function, modes Modes, spec map[string]
 			}
 			if r.Err == "" {
 				r.Renamed = fmt.Sprint(m2)
-				return r
+				// several unmentioned locals may make the contract resolve (an error variable resolves almost anywhere): the
+				// renaming under which the fewest obligations fail is the one meant; the first without any failure wins
+				nf := eng.countFailures(r)
+				if nf == 0 {
+					return r
+				}
+				if best == nil || nf < bestFail {
+					best, bestFail = r, nf
+				}
+				continue
 			}
 			if next := unresolvedRe.FindStringSubmatch(r.Err); next != nil && next[1] != name && ok == nil {
 				// this candidate resolved the name; another one is still missing
@@ -438,11 +451,33 @@ func (eng *Engine) inferRenaming(fn *ssa.Function, modes Modes, spec map[string]
 				break
 			}
 		}
+		if best != nil {
+			return best
+		}
 		if ok == nil {
 			return nil
 		}
 	}
 	return nil
+}
+
+// countFailures: how many obligations of r do not discharge (a quick attempt each; used to choose between renamings)
+func (eng *Engine) countFailures(r *FnResult) int {
+	if r == nil || r.Gen == nil {
+		return 1 << 30
+	}
+	dir, err := os.MkdirTemp("", "govc-rename-")
+	if err != nil {
+		return 1 << 30
+	}
+	defer os.RemoveAll(dir)
+	n := 0
+	for _, res := range eng.dischargeAll(r.Gen, dir, 5*time.Second, 16) {
+		if res != nil && !res.Obl.probe && res.Status != "proved" {
+			n++
+		}
+	}
+	return n
 }
 
 var whereRe = regexp.MustCompile(`([A-Za-z0-9_./-]+\.go:[0-9]+): unresolved name`)
